@@ -51,3 +51,17 @@ Theorem C08_ghost_history_exists : forall cfg s, wrapping cfg = false -> sreach 
   Inv s /\ exists iss dead, Hist2 s iss dead.
 Proof. exact (sreach_hist2 true true). Qed.
 Check (h2_nodup : forall s iss dead, Hist2 s iss dead -> NoDup iss).
+
+(* ---------------------------------------------------------------- the oracle's reading, whole histories *)
+From Gecs Require Import Spec OracleSim.
+
+(** "No two create calls ever return equal handles", as the specification oracle reads it on implementation traces:
+    every handle a create returns is compared with every handle issued before in that world's lineage.  For ALL
+    histories of the core language (OracleSim: creations in any archetype interleaved with destructions, to_direct,
+    writes, queries of len, read-all passes and probes) the oracle accepts the whole run of the model. *)
+Theorem C08_the_model_refines_the_oracle : forall cfg d qs caps w ops,
+  wrapping cfg = false -> wf_decl d -> NoDup (da_id <$> wd_archs d) ->
+  length caps = length (wd_archs d) -> new_world (wd_archs d) caps = Ok w tt ->
+  forallb (l0_op d) ops = true ->
+  spec_check cfg d qs (ONew caps :: ops) (run cfg d qs (ONew caps :: ops)) = None.
+Proof. exact core_language_refines_the_oracle. Qed.
